@@ -444,6 +444,30 @@ pub fn run(out: &mut Out, tier: &str, seed: u64, prop: &str) {
                 out.oracle_fail("C17", "the marker is not the marker with exactly the uninterpretable comparisons removed", input.clone());
             }
             if warns == "-" { out.oracle_fail("C17", "an uninterpretable comparison was dropped without any warning", input.clone()); }
+            // collecting evaluation warnings (marker level and requirement level, whose bracket extras differ from
+            // the active ones) never changes an evaluation result
+            if out.stats_get("c17.positions") % 3 == 0 {
+                use std::str::FromStr;
+                let r = std::panic::catch_unwind(|| pep508_rs::Requirement::<pep508_rs::VerbatimUrl>::from_str(&format!("pkg[dev,zzz] ; {with}")));
+                if let Ok(Ok(req)) = r {
+                    for xs in [vec![], vec!["dev"], vec!["x"], vec!["dev", "zzz"], vec!["test", "foo-bar"]] {
+                        let mut e = CEnv::default_env();
+                        e.extras = xs.iter().map(|x| x.to_string()).collect();
+                        let (env, extras) = (e.env(), e.extras());
+                        let plain = req.evaluate_markers(&env, &extras);
+                        let (collected, _w) = req.evaluate_markers_and_report(&env, &extras);
+                        let m1 = req.marker.evaluate(&env, &extras);
+                        let m2 = req.marker.evaluate_collect_warnings(&env, &extras).0;
+                        let mut sink = |_k: MarkerWarningKind, _m: String| {};
+                        let m3 = req.marker.evaluate_reporter(&env, &extras, &mut sink);
+                        out.evaluations += 1;
+                        if plain != collected || m1 != m2 || m1 != m3 || plain != m1 {
+                            out.oracle_fail("C17", &format!("collecting evaluation warnings / the choice of reporter changes the result: evaluate_markers {plain}, evaluate_markers_and_report {collected}, marker evaluate {m1}, _collect_warnings {m2}, _reporter {m3}"), serde_json::json!({"text": format!("pkg[dev,zzz] ; {with}"), "active_extras": xs}));
+                        }
+                    }
+                    out.stat("c17.requirement_level_evaluations");
+                }
+            }
             out.stat("c17.positions");
             out.nontrivial(with.clone());
         }
